@@ -97,7 +97,27 @@ def _shroud_main(argv):
     import shroud.main
 
     sys.argv = ["shroud"] + list(argv)
-    shroud.main.main()
+    covdir = os.environ.get("VT_STMT_COV")
+    if not covdir:
+        shroud.main.main()
+        return
+    # coverage reporting only (vt.stmtcov): which statement-table entries does this generation reach?
+    from shroud import statements
+
+    seen = set()
+    orig = statements.lookup_stmts_tree
+
+    def lookup(tree, path):
+        found = orig(tree, path)
+        seen.add(getattr(found, "name", None) or "default:" + str(path[0]))
+        return found
+
+    statements.lookup_stmts_tree = lookup
+    try:
+        shroud.main.main()
+    finally:
+        with open(os.path.join(covdir, "%d.txt" % os.getpid()), "a") as fp:
+            fp.write("\n".join(sorted(seen)) + "\n")
 
 
 def shroud_cli(argv, cwd=None, env=None, timeout=120):
